@@ -16,6 +16,8 @@ var constRe = regexp.MustCompile(`const\([^)]*\)`)
 
 // guardName names a program point by its nearest dominating branch condition (constants elided), so that obligation
 // keys are stable under code motion and constant changes.
+var counterGuardRE = regexp.MustCompile(`^\((?:[A-Za-z_][A-Za-z0-9_]*|phi\{[^}]*\}|loopvar)(>=|>|<=|<)K\)$`)
+
 func guardName(instr ssa.Instruction) string {
 	b := instr.Block()
 	sx := core.NewSymx()
@@ -39,6 +41,8 @@ func guardName(instr ssa.Instruction) string {
 		if strings.Contains(n, "select") {
 			continue
 		}
+		// a counter compared with a constant: the name of the counter (parameter, loop variable) is not part of the key
+		n = counterGuardRE.ReplaceAllString(n, "(v${1}K)")
 		if side == 1 {
 			n = "!" + n
 		}
@@ -649,7 +653,7 @@ func init() {
 			{ID: "C05-bootstrap", Floor: 2, Run: c05Bootstrap, Text: "[PROV]+[DOM] a fresh store is primed with the block before the configured first block"},
 			{ID: "C05-restart", Floor: 3, Run: c05Restart, Text: "[PROV]+[DOM] Download(from = lastProcessed+1); reset after reorg"},
 			{ID: "C05-cursor", Floor: 1, Run: c05Cursor, Text: "[CURSOR] lower bound of each fetch is the loop-carried cursor"},
-			{ID: "C05-range", Floor: 4, Run: c05Range, Text: "[PROV] the requested range is the range asked for, also on hash-mismatch retries; filter query fields"},
+			{ID: "C05-range", Floor: 3, Run: c05Range, Text: "[PROV] the requested range is the range asked for, also on hash-mismatch retries; filter query fields"},
 			{ID: "C05-marker", Floor: 1, Run: c05Marker, Text: "[DOM]+[PROV] empty marker after a delivery only when the delivery's last block is below the marker block"},
 		},
 	})
